@@ -265,6 +265,13 @@ func runCLI(c pluginCase, fake, thriftrw string, o wj.J) {
 	o["code"], o["stderr"] = code, stderr.String()
 	o["created"], o["modified"], o["deleted"], o["escaped"] = nz(created), nz(modified), nz(deleted), nz(escaped)
 	o["outrel"] = outRel
+	var outside []string
+	for _, p := range created {
+		if !strings.HasPrefix(p, outRel+"/") {
+			outside = append(outside, p)
+		}
+	}
+	o["created_outside"] = nz(outside)
 	var per []wj.J
 	for _, p := range c.Plugins {
 		per = append(per, wj.J{"name": p.Name, "events": readPluginLog(pdir, p.Name), "reaped": true, "started": true,
@@ -297,7 +304,7 @@ func cmdC16(args []string) error {
 		}
 		o := wj.J{"op": "c16", "id": pc.ID, "mode": pc.Mode, "case": m, "panic": "", "setup": "", "hung": false, "failed": false,
 			"per": []wj.J{}, "openerr": "", "generr": "", "closeerr": "", "genfiles": []string{}, "code": 0, "stderr": "",
-			"created": []string{}, "modified": []string{}, "deleted": []string{}, "escaped": []string{}, "outrel": "out"}
+			"created": []string{}, "modified": []string{}, "deleted": []string{}, "escaped": []string{}, "outrel": "out", "created_outside": []string{}}
 		inf.set(raw)
 		o["panic"] = safelyLong(func() {
 			if pc.Mode == "cli" {
